@@ -72,6 +72,7 @@ structure UpdateOK (t : Tree V) (cs : List (Nat × Option (V × Bool))) (pagesOf
   /-- the index consists of the untouched nodes and the produced nodes of the branch level -/
   index_level : o.index = idxOf bbnFresh 0 o.branchLevel
   branch_asc : OutAscB o.branchLevel
+  branch_olds : ∀ n ∈ oldsOfB o.branchLevel, n ∈ t.index
   /-- released leaf-store pages: the pages of the overflow cells whose key is in the batch, then (a permutation of) the
   pages of the old leaves that are not part of the new level -/
   ln_freed : ∃ fl, o.lnFreed = (LeafUpd.ovfLog (LeafUpd.flat t.leaves) (cs.map (·.1))).flatMap pagesOf ++ fl ∧
@@ -130,6 +131,7 @@ theorem update_spec (pagesOf : V → List Nat) (lnFresh bbnFresh : Nat → Nat) 
     have hoasc : OutAsc (t.leaves.map OutLeaf.old) := by
       unfold OutAsc; rw [List.pairwise_map]; exact (List.pairwise_map).1 hsasc
     refine ⟨by simp [LeafUpd.ovfLog_nil_keys]; rfl, hcontent, hoasc, hnews, ?_, hchain, ht.index, ?_, ?_, ?_,
+      (by intro n hn; simpa [oldsOfB_old] using hn),
       ⟨[], by simp [LeafUpd.ovfLog_nil_keys], ?_⟩, ?_, by simp [newsOf_old], by simp [newsOfB_old]⟩
     · intro l hl
       obtain ⟨y, hy, e⟩ := List.mem_map.1 hl
@@ -173,7 +175,8 @@ theorem update_spec (pagesOf : V → List Nat) (lnFresh bbnFresh : Nat → Nat) 
       refine ⟨_, hres, ?_⟩
       have hlevel := hl.level
       rw [hlcs] at hlevel
-      refine ⟨hl.run, hl.content, hl.asc, hl.news, hl.olds, hl.chain, ht.index, ?_, ?_, ?_, hl.freed, ?_,
+      refine ⟨hl.run, hl.content, hl.asc, hl.news, hl.olds, hl.chain, ht.index, ?_, ?_, ?_,
+        (by intro n hn; simpa [oldsOfB_old] using hn), hl.freed, ?_,
         hl.allocs, by simp [newsOfB_old]⟩
       · rw [hlvl0, ← hlevel]; rfl
       · show t.index = idxOf bbnFresh 0 (t.index.map OutNode.old)
@@ -188,7 +191,7 @@ theorem update_spec (pagesOf : V → List Nat) (lnFresh bbnFresh : Nat → Nat) 
           simp only [decide_eq_true_eq, Decidable.not_not]
           exact List.mem_map.2 ⟨l, hl', rfl⟩
         rw [this]; exact List.Perm.refl _
-    · obtain ⟨bo, rel, hbranch, hbrun, hbok, hbflat, hbidx, hbasc, hbfreed, hballoc⟩ :=
+    · obtain ⟨bo, rel, hbranch, hbrun, hbok, hbflat, hbidx, hbasc, hbfreed, hballoc, hbolds⟩ :=
         branchStage_spec bbnFresh t.index lo'.changeset ht.index ht.index_ne ht.index_zero hl.cs_asc hl.keys_lt hlcs
       have hres : update LeafUpd.sepReal kfReal pagesOf lnFresh bbnFresh false t cs a0 =
           some { index := bo.index, leafChangeset := lo'.changeset, lnFreed := lo'.freed, bbnFreed := bo.freed,
@@ -196,7 +199,7 @@ theorem update_spec (pagesOf : V → List Nat) (lnFresh bbnFresh : Nat → Nat) 
                  postIo := lo'.postIo, leafLevel := lo'.level, branchLevel := bo.level } := by
         simp only [update, hcsne, Bool.false_eq_true, if_false, hleaf, hbranch]
       refine ⟨_, hres, ?_⟩
-      refine ⟨hl.run, hl.content, hl.asc, hl.news, hl.olds, hl.chain, hbok, ?_, hbidx, hbasc, hl.freed,
+      refine ⟨hl.run, hl.content, hl.asc, hl.news, hl.olds, hl.chain, hbok, ?_, hbidx, hbasc, hbolds, hl.freed,
         hbfreed, hl.allocs, hballoc⟩
       rw [hbflat, hlvl0, hl.level]
 
